@@ -51,6 +51,13 @@ def cases(tier):
     yield "target-by-name-twice", f"let\n  v = {D};\n  args = {{\n    version = v;\n  }};\nin\nlet\n  v = \"2\";\nin\nmk args\n", "version;version", None
     # a let alias whose own value names something the rec set below shadows
     yield "let-alias-into-rec-shadow", f"let\n  release = version;\n  version = {D};\nin\nrec {{\n  version = \"LOCAL\";\n  tag = release;\n}}\n", "tag", None
+    # the edited set is reached through a name that an outer let binds as well, with a lambda / assert / parenthesis between the
+    # two lets: the innermost enclosing binding of the name is the one Nix designates
+    for mid, (o, c) in {"lambda": ("{ pkgs }:\n", ""), "assert": ("assert true;\n", ""), "paren": ("(\n", ")\n")}.items():
+        yield (f"target-name-rebound-under-{mid}",
+               f"let\n  args = {{\n    version = \"OUTER\";\n  }};\nin\n{o}let\n  args = {{\n    version = {D};\n  }};\nin\npkgs.mk args\n{c}", "version", None)
+    yield ("target-name-rebound-bare-body",
+           f"let\n  args = {{\n    version = \"OUTER\";\n  }};\nin\n{{ pkgs }}:\nlet\n  args = {{\n    version = {D};\n  }};\nin\nargs\n", "version", None)
     yield "unbound", "{\n  version = v;\n}\n", "version", "{\n  version = \"NEW\";\n}\n"
     yield "unbound-in-let", "let\n  w = 1;\nin\n{\n  version = v;\n}\n", "version", "let\n  w = 1;\nin\n{\n  version = \"NEW\";\n}\n"
     yield "formal-not-editable", "{ v }:\n{\n  version = v;\n}\n", "version", "{ v }:\n{\n  version = \"NEW\";\n}\n"
